@@ -19,9 +19,10 @@ import (
 
 // C18Forge is a forged-accept case.
 type C18Forge struct {
-	Forge   string `json:"forge"`   // random-key other-hash sig-other-key sig-altered-counts server-root-key sig-over-other-hash
-	Control bool   `json:"control"` // control connection type instead of full
-	DataFirst bool `json:"data_first"` // also send a tx notification right after the forged accept
+	Forge      string `json:"forge"`                 // random-key other-hash sig-other-key sig-altered-counts server-root-key sig-over-other-hash
+	Control    bool   `json:"control"`               // control connection type instead of full
+	DataFirst  bool   `json:"data_first"`            // also send a tx notification right after the forged accept
+	DataBefore bool   `json:"data_before,omitempty"` // send a tx notification and an in-sync message before the forged accept
 }
 
 func c18ForgeRun(fc *C18Forge) (*c16Violation, map[string]bool) {
@@ -40,6 +41,11 @@ func c18ForgeRun(fc *C18Forge) (*c16Violation, map[string]bool) {
 			regBad = "first message on a connection was not a register message"
 		}
 		mu.Unlock()
+		if fc.DataBefore {
+			_ = sc.send(c17TxMsg(1))
+			_ = sc.send(&InSync{})
+			time.Sleep(30 * time.Millisecond)
+		}
 		_ = sc.sendAccept(fc.Forge)
 		if fc.DataFirst {
 			_ = sc.send(c17TxMsg(1))
@@ -103,13 +109,13 @@ func c18ForgeRun(fc *C18Forge) (*c16Violation, map[string]bool) {
 
 // C18Gate is a gating case: application calls at generated points relative to the handshake.
 type C18Gate struct {
-	Control     bool  `json:"control"`
-	AcceptDelay int   `json:"accept_delay_ms"`  // server waits this long before sending the accept
-	ReadyDelay  int   `json:"ready_delay_ms"`   // application waits this long after the accept before Ready (full type)
-	CallAt      []int `json:"call_at_ms"`       // application issues a GetTx call this long after start
-	DropAt      int   `json:"drop_at_ms"`       // server drops the first connection at this time (0 = never)
-	DropKeepOpen bool `json:"drop_keep_read"`   // poison with an undecodable byte instead of closing
-	TimeoutMs   int   `json:"timeout_ms"`
+	Control      bool  `json:"control"`
+	AcceptDelay  int   `json:"accept_delay_ms"` // server waits this long before sending the accept
+	ReadyDelay   int   `json:"ready_delay_ms"`  // application waits this long after the accept before Ready (full type)
+	CallAt       []int `json:"call_at_ms"`      // application issues a GetTx call this long after start
+	DropAt       int   `json:"drop_at_ms"`      // server drops the first connection at this time (0 = never)
+	DropKeepOpen bool  `json:"drop_keep_read"`  // poison with an undecodable byte instead of closing
+	TimeoutMs    int   `json:"timeout_ms"`
 }
 
 func c18GateRun(g *C18Gate) (*c16Violation, map[string]bool) {
@@ -304,7 +310,7 @@ func c18GateRun(g *C18Gate) (*c16Violation, map[string]bool) {
 	return nil, flags
 }
 
-const c18Rule = "forged accepts (random key, key for another hash, signature by another key, by the root key, over another hash, counts altered after signing) for both connection types, optionally followed by data; gating plans (accept delay, ready delay, calls at generated times relative to connect/accept/ready, connection dropped or poisoned at a generated time); oracle: forged accept => not accepted, nothing reaches handlers, the connection fails; register validly signed with a fresh hash per connection; per connection only handshake-type messages before its handshake completed; a call that returned nil was written after a handshake; non-trivial = every forged case, and gating cases with a call issued while no handshake is complete; distinct by case hash"
+const c18Rule = "forged accepts (random key, key for another hash, signature by another key, by the root key, over another hash, counts altered after signing) for both connection types, optionally preceded or followed by data; gating plans (accept delay, ready delay, calls at generated times relative to connect/accept/ready, connection dropped or poisoned at a generated time); oracle: forged accept => not accepted, nothing reaches handlers, the connection fails; register validly signed with a fresh hash per connection; per connection only handshake-type messages before its handshake completed; a call that returned nil was written after a handshake; non-trivial = every forged case, and gating cases with a call issued while no handshake is complete; distinct by case hash"
 
 func TestC18Forged(t *testing.T) {
 	rep := verifkit.NewReport("C18", "TestC18Forged", c18Rule)
@@ -329,21 +335,48 @@ func TestC18Forged(t *testing.T) {
 		}
 		return
 	}
-	// exhaustive over the small forged-accept grid
+	// exhaustive over the small forged-accept grid (cases are independent: run 12 at a time)
 	seen := map[string]bool{}
+	var grid []*C18Forge
 	for _, forge := range []string{"random-key", "other-hash", "sig-other-key", "sig-altered-counts", "server-root-key", "sig-over-other-hash"} {
 		for _, control := range []bool{false, true} {
-			for _, data := range []bool{false, true} {
-				fc := &C18Forge{Forge: forge, Control: control, DataFirst: data}
-				if v := run(fc); v != nil && !seen[v.key] {
-					seen[v.key] = true
-					rep.AddViolation(v.key, v.what, fc)
-					t.Errorf("%s: %s", v.key, v.what)
-				}
-				if rep.WantSample() {
-					rep.Sample(fc)
-				}
+			for _, data := range []int{0, 1, 2} {
+				grid = append(grid, &C18Forge{Forge: forge, Control: control, DataFirst: data == 1, DataBefore: data == 2})
 			}
+		}
+	}
+	type outcome struct {
+		v *c16Violation
+		f map[string]bool
+	}
+	results := make([]outcome, len(grid))
+	sem := make(chan struct{}, 12)
+	var wg sync.WaitGroup
+	for i := range grid {
+		wg.Add(1)
+		sem <- struct{}{}
+		go func(i int) {
+			defer wg.Done()
+			defer func() { <-sem }()
+			v, f := c18ForgeRun(grid[i])
+			results[i] = outcome{v, f}
+		}(i)
+	}
+	wg.Wait()
+	for i, fc := range grid {
+		v := results[i].v
+		rep.Case(verifkit.Hash(fc), true, flagList16(results[i].f)...)
+		if v != nil && verifkit.Known(v.key) {
+			rep.Exclude(v.key)
+			v = nil
+		}
+		if v != nil && !seen[v.key] {
+			seen[v.key] = true
+			rep.AddViolation(v.key, v.what, fc)
+			t.Errorf("%s: %s", v.key, v.what)
+		}
+		if rep.WantSample() {
+			rep.Sample(fc)
 		}
 	}
 	// control: a valid accept must be accepted (guards against a harness that rejects everything)
